@@ -86,7 +86,13 @@ func ConnectSession(ctx context.Context, cluster *Cluster, config SessionConfig)
 	case <-ctx.Done():
 		return nil, ctx.Err()
 	case <-session.connected:
-		return session, nil
+		// A pool can have failed with a critical error by now too, in which case both channels are ready
+		select {
+		case err = <-session.failed:
+			return nil, err
+		default:
+			return session, nil
+		}
 	case err = <-session.failed:
 		return nil, err
 	}
@@ -128,8 +134,9 @@ func (s *Session) OnEvent(event Event) {
 						case s.failed <- err:
 						default:
 						}
+					} else {
+						s.pools.Store(host.Key(), pool) // There's no pool to store when connecting failed with a critical error
 					}
-					s.pools.Store(host.Key(), pool)
 					wg.Done()
 				}(host)
 			}
